@@ -325,8 +325,7 @@ func getHashForOID(oid asn1.ObjectIdentifier) (Hash, error) {
 		return SHA1, nil
 	case oid.Equal(oidSHA256):
 		return SHA256, nil
-	case oid.Equal(oidSM3):
-	case oid.Equal(oidHashSM3):
+	case oid.Equal(oidSM3), oid.Equal(oidHashSM3):
 		return SM3, nil
 	}
 	return Hash(0), ErrPKCS7UnsupportedAlgorithm
